@@ -30,6 +30,7 @@ the normal form holds on the source.  A call that cannot be inlined is left
 alone: the rules then either follow it interprocedurally or report the idiom
 as not understood (exit 2)."""
 import ast
+import re
 import copy
 import json
 import os
@@ -143,6 +144,32 @@ def _const_binding(target, value):
             out.update(sub)
         return out
     return None
+
+
+def _flat_pairs(target, value):
+    """[(name, value AST)] when `target = value` binds plain names element-wise, else None"""
+    if isinstance(target, ast.Name):
+        return [(target.id, value)]
+    if isinstance(target, (ast.Tuple, ast.List)) and isinstance(value, (ast.Tuple, ast.List)) and len(target.elts) == len(value.elts):
+        out = []
+        for t, v in zip(target.elts, value.elts):
+            sub = _flat_pairs(t, v)
+            if sub is None:
+                return None
+            out += sub
+        return out
+    return None
+
+
+def _stable_path(e):
+    """self.A.B.C / Class.A.B with every attribute written as a constant (UPPER_CASE): the repository's class-level constants"""
+    n = 0
+    while isinstance(e, ast.Attribute):
+        if not re.fullmatch(r"_?[A-Z][A-Z0-9_]*", e.attr):
+            return False
+        e = e.value
+        n += 1
+    return n > 0 and isinstance(e, ast.Name)
 
 
 class _ConstSub(ast.NodeTransformer):
@@ -367,6 +394,31 @@ def _flatten_blocks(stmts):
     return out
 
 
+def _drop_dead_defs(fdef, body):
+    """nested function definitions whose name is never read any more (every call was inlined) are removed"""
+    loads = {n.id for st in body for n in ast.walk(st) if isinstance(n, ast.Name) and isinstance(n.ctx, ast.Load)}
+
+    def clean(stmts):
+        out = []
+        for st in stmts:
+            if isinstance(st, ast.FunctionDef) and st.name not in loads:
+                continue
+            if isinstance(st, InlineBlock):
+                st.prologue, st.body, st.epilogue = clean(st.prologue), clean(st.body), clean(st.epilogue)
+            elif not isinstance(st, (ast.FunctionDef, ast.AsyncFunctionDef, ast.ClassDef)):
+                for f in ("body", "orelse", "finalbody"):
+                    if isinstance(getattr(st, f, None), list):
+                        new = clean(getattr(st, f))
+                        if f == "body" and not new:
+                            new = [ast.copy_location(ast.Pass(), st)]
+                        setattr(st, f, new)
+                for h in getattr(st, "handlers", []) or []:
+                    h.body = clean(h.body) or [ast.copy_location(ast.Pass(), h)]
+            out.append(st)
+        return out
+    return clean(body)
+
+
 class _Rename(ast.NodeTransformer):
     def __init__(self, m):
         self.m = m
@@ -435,6 +487,7 @@ class Normalizer:
         self.unrolled = []
         self.split_handlers = []
         self.lowered = []
+        self._closures = {}
         self._index()
 
     # -- index ------------------------------------------------------------------
@@ -498,6 +551,10 @@ class Normalizer:
         f = call.func
         if any(isinstance(a, ast.Starred) for a in call.args) or any(k.arg is None for k in call.keywords):
             return None
+        if isinstance(f, ast.Name) and f.id in self._closures:
+            fd = self._closures[f.id]
+            fname = f"<{f.id}@{getattr(fd, 'lineno', 0)}>"
+            return (f"{modname}:{cname}.{fname}" if cname else f"{modname}:{fname}"), fd, False
         if isinstance(f, ast.Name):
             fd = self.mod_funcs.get(modname, {}).get(f.id)
             if fd is None:
@@ -604,14 +661,62 @@ class Normalizer:
         if getattr(fdef, "_normalised", False):
             return
         fdef._normalised = True
-        state = {"locals": _local_names(fdef), "caller": stack[0], "displays": _single_displays(fdef), "module": modname}
-        fdef.body = _flatten_blocks(self._stmts(fdef.body, modname, cname, stack, state))
+        state = {"locals": _local_names(fdef), "caller": stack[0], "displays": _single_displays(fdef), "module": modname, "root": fdef}
+        self._closures = {}
+        fdef.body = _drop_dead_defs(fdef, _flatten_blocks(self._stmts(fdef.body, modname, cname, stack, state)))
 
     def _stmts(self, stmts, modname, cname, stack, state):
+        stmts = self._sink_tail(stmts)
         out = []
+        saved = dict(self._closures)
         for st in stmts:
+            if isinstance(st, ast.FunctionDef) and not st.decorator_list and self._inlinable_def(st) and self._closure_only_called(st, state):
+                # N12: a local function that is only ever called: its calls further down this block are inlined like any helper
+                self._closures[st.name] = st
+                out.append(st)
+                continue
             out += self._stmt(st, modname, cname, stack, state)
+            for nm in list(self._closures):
+                if self._closures[nm] is not saved.get(nm) or True:
+                    if any((isinstance(n, (ast.FunctionDef, ast.AsyncFunctionDef, ast.ClassDef)) and n.name == nm)
+                           or (isinstance(n, ast.Name) and n.id == nm and isinstance(n.ctx, (ast.Store, ast.Del))) for n in ast.walk(st)):
+                        del self._closures[nm]
+        self._closures = saved
         return _quantifier_loops(out)
+
+    def _closure_only_called(self, fd, state):
+        root = state.get("root")
+        if root is None:
+            return False
+        calls = {id(n.func) for n in ast.walk(root) if isinstance(n, ast.Call) and isinstance(n.func, ast.Name) and n.func.id == fd.name}
+        for n in ast.walk(root):
+            if isinstance(n, ast.Name) and n.id == fd.name and isinstance(n.ctx, ast.Load) and id(n) not in calls:
+                return False
+        # the closure must not refer to itself and must not bind names of the enclosing function through nonlocal (checked by _inlinable_def)
+        return not any(isinstance(n, ast.Name) and n.id == fd.name for n in ast.walk(fd))
+
+    def _sink_tail(self, stmts):
+        """Tail duplication: when the branches of an `if` define a local function that the statements after the `if` call, those statements
+        are copied to the end of every branch that can fall through - each copy then sees exactly one definition."""
+        for i, st in enumerate(stmts):
+            if not isinstance(st, ast.If) or i + 1 >= len(stmts) or len(stmts) - i > 40:
+                continue
+            names = {s_.name for br in (st.body, st.orelse) for s_ in br if isinstance(s_, ast.FunctionDef)}
+            if not names:
+                continue
+            tail = stmts[i + 1:]
+            used = {n.func.id for t in tail for n in ast.walk(t) if isinstance(n, ast.Call) and isinstance(n.func, ast.Name)}
+            if not (names & used):
+                continue
+            if any(isinstance(n, (ast.FunctionDef, ast.AsyncFunctionDef, ast.ClassDef, ast.Lambda)) for t in tail for n in ast.walk(t)):
+                continue
+            if not _ends_flow(st.body):
+                st.body = st.body + copy.deepcopy(tail)
+            if not _ends_flow(st.orelse):
+                st.orelse = st.orelse + copy.deepcopy(tail)
+            self.lowered.append(("?", getattr(st, "lineno", 0), "tail-duplication"))
+            return stmts[:i + 1]
+        return stmts
 
     def _stmt(self, st, modname, cname, stack, state):
         rec = lambda body: self._stmts(body, modname, cname, stack, state)  # noqa: E731
@@ -619,6 +724,14 @@ class Normalizer:
             return [st]
         if isinstance(st, InlineBlock):
             return [st]
+        if isinstance(st, ast.If) and any(isinstance(n, ast.NamedExpr) for n in ast.walk(st.test)):
+            low = self._walrus_if(st)
+            if low is not None:
+                self.lowered.append((state["caller"], getattr(st, "lineno", 0), "walrus"))
+                out = []
+                for s_ in low:
+                    out += self._stmt(s_, modname, cname, stack, state)
+                return out
         if isinstance(st, ast.If):
             st.body = rec(st.body)
             st.orelse = rec(st.orelse)
@@ -731,8 +844,10 @@ class Normalizer:
         # the helper's own helpers first (with the extended stack)
         hname = fdef.name.strip("_")
         hcls = qual.split(":")[1].split(".")[0] if "." in qual.split(":")[1] else None
-        sub_state = {"locals": _local_names(helper), "caller": qual, "module": modname}
+        sub_state = {"locals": _local_names(helper), "caller": qual, "module": modname, "root": helper}
+        outer_closures, self._closures = self._closures, {}
         helper.body = self._stmts(helper.body, modname, hcls, stack + (qual,), sub_state)
+        self._closures = outer_closures
         params = [a.arg for a in helper.args.args]
         if bound:
             if not params:
@@ -821,6 +936,48 @@ class Normalizer:
                 if isinstance(st, ast.Import) and any(a.name == "contextlib" and (a.asname or a.name) == e.func.value.id for a in st.names):
                     return True
         return False
+
+    # -- N11 -----------------------------------------------------------------------------
+    def _walrus_if(self, st):
+        """if A or C[(x := E)]: S else: O  ->  if A: S  else: x = E; if C[x]: S else: O      (and dually for `and`);
+        if C[(x := E)] with only pure, x-free code evaluated before the walrus  ->  x = E; if C[x]"""
+        t = st.test
+        if isinstance(t, ast.BoolOp) and len(t.values) >= 2 and not any(isinstance(n, ast.NamedExpr) for v in t.values[:-1] for n in ast.walk(v)):
+            head = t.values[0] if len(t.values) == 2 else ast.copy_location(ast.BoolOp(op=t.op, values=t.values[:-1]), t)
+            inner = ast.copy_location(ast.If(test=t.values[-1], body=st.body, orelse=st.orelse), st)
+            if isinstance(t.op, ast.Or):
+                new = ast.copy_location(ast.If(test=head, body=copy.deepcopy(st.body), orelse=[inner]), st)
+            else:
+                new = ast.copy_location(ast.If(test=head, body=[inner], orelse=copy.deepcopy(st.orelse)), st)
+            ast.fix_missing_locations(new)
+            return [new]
+        if isinstance(t, ast.BoolOp):
+            return None
+        ws = [n for n in ast.walk(t) if isinstance(n, ast.NamedExpr)]
+        if len(ws) != 1 or not isinstance(ws[0].target, ast.Name):
+            return None
+        w = ws[0]
+        x = w.target.id
+        # everything in the test except the walrus' own value must be pure and must not read x before... (x is read only after the walrus: reject any other use)
+        others = [n for n in ast.walk(t) if isinstance(n, ast.Name) and n.id == x and n is not w.target]
+        if others:
+            return None
+        for n in ast.walk(t):
+            if isinstance(n, ast.Call) and not (isinstance(n.func, ast.Name) and n.func.id in ("len", "int", "bytes", "type", "isinstance", "bool", "str", "abs", "min", "max")):
+                return None
+            if isinstance(n, (ast.BoolOp, ast.IfExp, ast.Lambda, ast.ListComp, ast.SetComp, ast.DictComp, ast.GeneratorExp, ast.Await, ast.Yield)):
+                return None
+        asg = ast.copy_location(ast.Assign(targets=[ast.Name(id=x, ctx=ast.Store())], value=w.value, type_comment=None), st)
+
+        class R(ast.NodeTransformer):
+            def visit_NamedExpr(s_, node):
+                if node is w:
+                    return ast.copy_location(ast.Name(id=x, ctx=ast.Load()), node)
+                return node
+        st.test = R().visit(t)
+        ast.fix_missing_locations(asg)
+        ast.fix_missing_locations(st)
+        return [asg, st]
 
     # -- N9 ------------------------------------------------------------------------------
     def _dict_get_lowering(self, st, modname, cname, state):
@@ -1119,6 +1276,24 @@ class Normalizer:
                 # constant items: substitute them for the loop variables
                 for s in copy.deepcopy(st.body):
                     out.append(_ConstSub(m).visit(s))
+                continue
+            pairs = _flat_pairs(st.target, e)
+            tnames = {t for t, _ in pairs} if pairs else set()
+            if pairs and len(tnames) == len(pairs) and all(_side_effect_free(v) or _is_const(v) for _, v in pairs) \
+                    and not any(isinstance(n, ast.Name) and n.id in tnames for _, v in pairs for n in ast.walk(v)):
+                # element-wise: constants and constant paths (self.UPPER.CASE chains) take the place of the loop variable, the rest is assigned
+                m, pre = {}, []
+                for t, v in pairs:
+                    if (_is_const(v) or _stable_path(v)) and t not in stored:
+                        m[t] = v
+                    else:
+                        a = ast.Assign(targets=[ast.Name(id=t, ctx=ast.Store())], value=copy.deepcopy(v), type_comment=None)
+                        ast.copy_location(a, st)
+                        ast.fix_missing_locations(a)
+                        pre.append(a)
+                out += pre
+                for s in copy.deepcopy(st.body):
+                    out.append(_ConstSub(m).visit(s) if m else s)
                 continue
             asg = ast.Assign(targets=[copy.deepcopy(st.target)], value=copy.deepcopy(e), type_comment=None)
             ast.copy_location(asg, st)
